@@ -298,10 +298,29 @@ AS_FLOW0 = {
 }
 
 
+ALT_OF_SI = {"m/s": "kn", "deg": "rad", "1/m": "1/ft", "kg/m**3": "slug/ft**3", "m": "ft", "kg": "lbm", "N": "lbf", "1/s": "1/h", "rad/s": "deg/s", "m**2": "ft**2", "N*m": "lbf*ft"}
+
+
+class ReexpressIVC(om.IndepVarComp):
+    """IndepVarComp that, when `alt` is set, declares every dimensional output in another unit with the converted value:
+    the same physical inputs in another unit system (law Reexpress of OASLaws)."""
+
+    def __init__(self, alt=False, **kw):
+        super().__init__(**kw)
+        self._alt = alt
+
+    def add_output(self, name, val=1.0, units=None, **kw):
+        if self._alt and units in ALT_OF_SI:
+            from openmdao.utils.units import convert_units
+
+            val, units = convert_units(np.asarray(val, dtype=float), units, ALT_OF_SI[units]), ALT_OF_SI[units]
+        return super().add_output(name, val=val, units=units, **kw)
+
+
 class ASModel:
     """AerostructGeometry + one or more AerostructPoint, wired as in the repository's tests/docs."""
 
-    def __init__(self, surfs, flow=None, npoints=1, compressible=False, rng=None, meshes=None, nl="NLBGS_aitken", lin="Direct", mode="auto", atol=1e-8, dicts=None, rotational=False, lin_maxiter=None):
+    def __init__(self, surfs, flow=None, npoints=1, compressible=False, rng=None, meshes=None, nl="NLBGS_aitken", lin="Direct", mode="auto", atol=1e-8, dicts=None, rotational=False, lin_maxiter=None, units="SI"):
         from openaerostruct.integration.aerostruct_groups import AerostructGeometry, AerostructPoint
 
         self.surfs = surfs
@@ -312,7 +331,7 @@ class ASModel:
         self.names = [d["name"] for d in self.dicts]
         self.npoints = npoints
         prob = om.Problem(reports=False)
-        ivc = om.IndepVarComp()
+        ivc = ReexpressIVC(alt=units != "SI")
         units = {"v": "m/s", "alpha": "deg", "beta": "deg", "Mach_number": None, "re": "1/m", "rho": "kg/m**3", "CT": "1/s", "R": "m", "W0": "kg", "speed_of_sound": "m/s", "load_factor": None, "empty_cg": "m"}
         self.point_vars = ["v", "alpha", "beta", "Mach_number", "re", "rho", "load_factor"]
         for k, u in units.items():
@@ -423,13 +442,13 @@ def configure_solvers(coupled, nl="NLBGS_aitken", lin="Direct", atol=1e-8, lin_m
 class StructModel:
     """SpatialBeamAlone with loads supplied directly."""
 
-    def __init__(self, s, loads=None, rng=None, mesh=None, mode="auto", d=None):
+    def __init__(self, s, loads=None, rng=None, mesh=None, mode="auto", d=None, units="SI"):
         from openaerostruct.structures.struct_groups import SpatialBeamAlone
 
         self.d = d if d is not None else surface_dict(s, mesh, rng)
         ny = self.d["mesh"].shape[1]
         prob = om.Problem(reports=False)
-        ivc = om.IndepVarComp()
+        ivc = ReexpressIVC(alt=units != "SI")
         if loads is None:
             loads = np.zeros((ny, 6))
             loads[:, 2] = 1e4
